@@ -656,6 +656,15 @@ class Linker:
         end = begin + size
         data = section.data[begin:end]
         assert len(data) == size, f"len({data}) ({begin}-{end}) != {size}"
-        data = reloc.apply(sym_value, data, reloc_value)
+        try:
+            data = reloc.apply(sym_value, data, reloc_value)
+        except (AssertionError, ValueError) as ex:
+            symbol = self.dst.symbols_by_id[relocation.symbol_id]
+            raise CompilerError(
+                f"Cannot apply relocation {relocation.reloc_type} at"
+                f" {relocation.section}+0x{relocation.offset:x}"
+                f" (address 0x{reloc_value:x}) to symbol {symbol.name}"
+                f" (0x{sym_value:x}): {ex}"
+            ) from ex
         assert len(data) == size
         section.data[begin:end] = data
